@@ -73,6 +73,7 @@ DIMS = [
     ("secure", [0, 1]),
     ("exp", ["-", "ma10", "ma0", "past", "fut", "ma-1", "mabad", "epoch"]),
     ("name", ["n", "m"]),
+    ("val", ["u", "same"]),
 ]
 QUICK_DIMS = [
     ("host", ["E", "S", "O", "N", "I"]),
@@ -82,6 +83,7 @@ QUICK_DIMS = [
     ("secure", [0, 1]),
     ("exp", ["-", "ma10", "ma0", "past", "epoch"]),
     ("name", ["n", "m"]),
+    ("val", ["u", "same"]),      # "same": a constant value, so that a re-issued cookie can equal the stored one
 ]
 
 
@@ -104,11 +106,13 @@ CONTROLS = [["tick", 5], ["tick", 20], ["clear"], ["cleardom", "example.com"], [
 
 def value_of(op):
     """Injective, cookie-value-safe encoding of the op (so a delivered value names the Set-Cookie that made it)."""
+    if op[-1] == "same":
+        return "same"
     return "v" + "x".join("".join(f"{ord(ch):02x}" if not ch.isalnum() else ch for ch in str(x)) for x in op[1:])
 
 
 def header_of(op):
-    _s, host, dom, path, rpath, secure, exp, name = op
+    _s, host, dom, path, rpath, secure, exp, name, _val = op
     h = f"{name}={value_of(op)}"
     if DOM[dom] is not None:
         h += f"; Domain={DOM[dom]}"
@@ -154,7 +158,7 @@ class Sim:
         kind = op[0]
         try:
             if kind == "set":
-                _s, host, dom, path, rpath, secure, exp, name = op
+                _s, host, dom, path, rpath, secure, exp, name, _val = op
                 url = URL(f"http://{HOSTS[host]}{RPATH[rpath]}")
                 self.jar.update_cookies_from_headers([header_of(op)], url)
                 ma, ex = EXP[exp]
@@ -294,13 +298,15 @@ def run(ctx):
 
 # hand-picked core alphabet for the deepest search: the cookies that collide in the jar's side tables
 CORE = [
-    ["set", "E", "-", "-", "/", 0, "-", "n"],        # host-only n on /
-    ["set", "E", "-", "/a", "/", 0, "ma10", "n"],    # host-only n on /a, expiring
-    ["set", "E", "e", "-", "/", 0, "-", "n"],        # domain cookie n on /
-    ["set", "E", "e", "/a", "/", 0, "ma10", "n"],    # domain cookie n on /a, expiring
-    ["set", "S", "e", "-", "/", 1, "-", "n"],        # parent-domain cookie from the sub-domain, Secure
-    ["set", "S", "-", "-", "/", 0, "ma0", "n"],      # deletion of host-only n at sub
-    ["set", "E", "-", "-", "/", 0, "ma0", "n"],      # deletion of n at E
+    ["set", "E", "-", "-", "/", 0, "-", "n", "u"],        # host-only n on /
+    ["set", "E", "-", "/a", "/", 0, "ma10", "n", "u"],    # host-only n on /a, expiring
+    ["set", "E", "e", "-", "/", 0, "-", "n", "u"],        # domain cookie n on /
+    ["set", "E", "e", "/a", "/", 0, "ma10", "n", "u"],    # domain cookie n on /a, expiring
+    ["set", "S", "e", "-", "/", 1, "-", "n", "u"],        # parent-domain cookie from the sub-domain, Secure
+    ["set", "S", "-", "-", "/", 0, "ma0", "n", "u"],      # deletion of host-only n at sub
+    ["set", "E", "-", "-", "/", 0, "ma0", "n", "u"],      # deletion of n at E
+    ["set", "E", "e", "-", "/", 0, "-", "n", "same"],     # domain cookie, constant value
+    ["set", "E", "-", "-", "/", 0, "-", "n", "same"],     # host-only cookie, same value and attributes
 ]
 
 
